@@ -113,6 +113,14 @@ def cases(tier: str, rng: random.Random) -> List[Case]:
         ("MaybeV", AINT), ("LazyV", N(0), True), ("CacheV", AINT), ("CacheV", ONLY_ASYNC),
         ("NTupleV", [AINT, INT], Some(N(1)), Some(("CoTupleOrList",))),
         ("ListV", ("UserV", N(1), True), [], [], None),
+        # the only async-only check is the whole-object one (a coroutine function, and a callable object with an
+        # async __call__): every key validates synchronously, so a sync call that skipped the guard would return
+        ("RecordV", [P(G.S("a"), INT)], N(0), None, Some(N(0)), False),
+        ("RecordV", [P(G.S("a"), INT)], N(0), None, Some(N(1)), False),
+        ("RecordV", [P(G.S("a"), INT), P(G.S("b"), ("KeyNotRequired", INT))], N(0), None, Some(N(1)), True),
+        ("DictAnyV", [P(G.S("a"), INT)], None, Some(N(1)), False),
+        ("ClassV", ("RkData",), N(G.C_DATA), [P(G.S("a"), P(INT, True)), P(G.S("b"), P(INT, False))], None, Some(N(1)), False, None),
+        ("NTupleV", [INT, INT], None, Some(("CoTupleOrList",))),
     ]
     inputs = [G.I(1), G.I(-1), G.S("s"), G.NONE, ("VList", []), ("VList", [G.I(1)]), ("VList", [G.I(-1), G.S("q")]), ("VList", [G.S("q")]),
               ("VSet", [G.I(2)]), ("VTuple", [G.I(2), G.I(3)]), ("VTuple", [G.S("q"), G.I(3)]), ("VDict", []), ("VDict", [P(G.I(1), G.I(2))]),
